@@ -16,6 +16,12 @@
 //	              connections implement net.Conn only (no ReadFrom/WriteTo/CloseWrite; the proxy
 //	              cannot half-close such a connection: when the target shuts it closes it, which
 //	              ends the client's direction too — scripts and expectations account for that)
+//	              +t<B> a trafficshape.Listener with a shape for http://<origin>/shaped that closes the
+//	              connection at byte B (count unlimited) — only exchanges with that URL are shaped;
+//	              like +w the connection cannot be half-closed
+//	    G<n>   (any number, right after b<banner>, vias D and M) BEFORE the CONNECT the client does a
+//	           plain proxy exchange on the SAME kept-alive connection: GET http://<origin>/shaped/<n>,
+//	           answered with n bytes and a Content-Length; nothing of it may leak into the tunnel
 //	    early  number of client payload bytes written in the SAME write as the CONNECT head;
 //	           e<n>h: the client also half-closes right then, before the CONNECT response
 //	           (= an implicit first phase "ch/t", which gets its own checkpoint)
@@ -23,6 +29,8 @@
 //	           accept; F: in the same write as the downstream proxy's 200 head)
 //	    phase  c<writes>[h|f]/t<writes>[h|f]   both sides run concurrently, then a checkpoint
 //	           writes = comma separated <size>[x<count>][~<pause_ms>]
+//	           a side may also be the single letter S: it streams (32 KiB writes) until a write
+//	           fails or the grace period is over, while the other side aborts (a) in that phase
 //	           h = CloseWrite after the writes, f = full Close after the writes,
 //	           a = abortive close (SetLinger(0); Close -> RST), u = stop reading, let the
 //	           other side's writes of this phase arrive, then Close with that data unread
@@ -50,6 +58,12 @@
 //	      because an end never shut); with a probe, before R: W1|W0 (a client write failed =
 //	      the proxy closed the client connection, within the grace period) and Q0|Q1 (the
 //	      canary origin was contacted: bytes written into the dead tunnel were taken for HTTP)
+//	      then K1|K0|K- : the proxies dial through a wrapper that records Close(): K1 = every
+//	      connection the proxies dialled had Close() called within the grace period after the
+//	      tunnel's end, K- = the tunnel has not ended or (one case in four, chosen by a hash of IN)
+//	      the proxies dialled plain *net.TCPConn so that the kernel fast paths stay covered.
+//	      g<status>:<n> per G token comes first.  A streaming side adds S1|S0 after that phase's
+//	      token (its write failed within the grace period / it was still writing)
 //	FAIL: s<status> W1|W0
 //
 // Timing: a checkpoint waits until everything an ideal tunnel would have delivered has
@@ -68,10 +82,12 @@ import (
 	"crypto/x509"
 	"crypto/x509/pkix"
 	"fmt"
+	"hash/fnv"
 	"io"
 	"math/big"
 	"net"
 	"net/http"
+	"net/http/httptest"
 	"net/url"
 	"os"
 	"strconv"
@@ -82,6 +98,7 @@ import (
 
 	"github.com/google/martian/v3"
 	mlog "github.com/google/martian/v3/log"
+	"github.com/google/martian/v3/trafficshape"
 	"verifharness/hx"
 )
 
@@ -90,8 +107,9 @@ import (
 type wr struct{ size, count, pause int }
 
 type side struct {
-	ws   []wr
-	shut byte // 0, 'h', 'f', 'a', 'u'
+	ws     []wr
+	shut   byte // 0, 'h', 'f', 'a', 'u'
+	stream bool // S: write until it fails
 }
 
 func (s side) total() int {
@@ -106,17 +124,24 @@ type phase struct{ c, t side }
 
 type tcase struct {
 	via           string // D, M, F
-	lkind         byte   // 't' plain TCP, 's' TLS, 'w' net.Conn-only wrapper
+	lkind         byte   // 'p' plain TCP, 's' TLS, 'w' net.Conn-only wrapper, 't' trafficshape.Listener
 	fcode         int    // status the scripted downstream proxy answers with
 	fvar          byte   // 0, 'c', 'r'
 	early, banner int
 	earlyShut     bool
-	probe         byte // 0, 'q', 'r'
+	probe         byte  // 0, 'q', 'r'
+	shapeAt       int   // +t<B>
+	pre           []int // G<n>
+	tracked       bool
 	phases        []phase
 }
 
 func parseSide(s string) (side, error) {
 	var sd side
+	if s == "S" {
+		sd.stream = true
+		return sd, nil
+	}
 	if n := len(s); n > 0 && strings.IndexByte("hfau", s[n-1]) >= 0 {
 		sd.shut = s[n-1]
 		s = s[:n-1]
@@ -156,10 +181,16 @@ func parseTun(in []string) (*tcase, error) {
 	if len(in) < 4 || in[0] != "TUN" {
 		return nil, fmt.Errorf("short")
 	}
-	tc := &tcase{via: in[1], lkind: 't', fcode: 200}
+	tc := &tcase{via: in[1], lkind: 'p', fcode: 200}
 	if i := strings.IndexByte(tc.via, '+'); i >= 0 {
 		if lk := tc.via[i+1:]; lk == "s" || lk == "w" {
 			tc.lkind = lk[0]
+		} else if len(lk) > 1 && lk[0] == 't' {
+			b, err := strconv.Atoi(lk[1:])
+			if err != nil || b < 1 {
+				return nil, fmt.Errorf("shape offset")
+			}
+			tc.lkind, tc.shapeAt = 't', b
 		} else {
 			return nil, fmt.Errorf("listener kind")
 		}
@@ -195,6 +226,17 @@ func parseTun(in []string) (*tcase, error) {
 	if tc.banner, err = strconv.Atoi(in[3][1:]); err != nil || tc.banner < 0 || tc.banner > 1<<20 {
 		return nil, fmt.Errorf("banner")
 	}
+	h := fnv.New32a()
+	h.Write([]byte(strings.Join(in, " ")))
+	tc.tracked = h.Sum32()%4 != 0
+	for len(in) > 4 && len(in[4]) > 1 && in[4][0] == 'G' {
+		n, err := strconv.Atoi(in[4][1:])
+		if err != nil || n < 0 || n > 1<<22 || tc.via == "F" || tc.lkind == 's' {
+			return nil, fmt.Errorf("pre-exchange")
+		}
+		tc.pre = append(tc.pre, n)
+		in = append(append([]string{}, in[:4]...), in[5:]...)
+	}
 	if n := len(in); n > 4 && (in[n-1] == "Pq" || in[n-1] == "Pr") {
 		tc.probe = in[n-1][1]
 		in = in[:n-1]
@@ -214,7 +256,7 @@ func parseTun(in []string) (*tcase, error) {
 			return nil, err
 		}
 		// an end that has shut does nothing more
-		if cshut && (len(ph.c.ws) > 0 || ph.c.shut != 0) || tshut && (len(ph.t.ws) > 0 || ph.t.shut != 0) {
+		if cshut && (len(ph.c.ws) > 0 || ph.c.shut != 0 || ph.c.stream) || tshut && (len(ph.t.ws) > 0 || ph.t.shut != 0 || ph.t.stream) {
 			return nil, fmt.Errorf("action after shut")
 		}
 		for _, pr := range [][2]side{{ph.c, ph.t}, {ph.t, ph.c}} {
@@ -222,12 +264,15 @@ func parseTun(in []string) (*tcase, error) {
 			if (me.shut == 'a' || me.shut == 'u') && len(me.ws) > 0 {
 				return nil, fmt.Errorf("abort with writes")
 			}
+			if me.stream && other.shut != 'a' {
+				return nil, fmt.Errorf("S needs the other side to abort in that phase")
+			}
 			if me.shut == 'u' && (other.total() < 1 || other.total() > 65536 || other.shut != 0) {
 				return nil, fmt.Errorf("u needs 1..65536 bytes from the other side")
 			}
 		}
-		cshut = cshut || ph.c.shut != 0
-		tshut = tshut || ph.t.shut != 0
+		cshut = cshut || ph.c.shut != 0 || ph.c.stream
+		tshut = tshut || ph.t.shut != 0 || ph.t.stream
 		tgone = tgone || ph.t.shut == 'f' || ph.t.shut == 'a' || ph.t.shut == 'u'
 		tc.phases = append(tc.phases, ph)
 	}
@@ -256,6 +301,7 @@ type end struct {
 	eof   int32 // 0 none, 1 clean EOF, 2 error
 	local int32 // 1 = we closed the socket ourselves
 	wdone int64 // bytes written so far by this end's writer
+	sfail int32 // streaming: 1 = a write failed, 2 = still writing when the grace period ended
 }
 
 func (e *end) reader(r io.Reader, want []byte, wg *sync.WaitGroup) {
@@ -316,12 +362,34 @@ type halfCloser interface{ CloseWrite() error }
 
 // writer performs one side's actions of one phase.  mine is closed when this
 // side's writes are done, others when the other side's are.
-func writer(conn net.Conn, e *end, data []byte, off int, sd side, wg *sync.WaitGroup, mine chan<- struct{}, others <-chan struct{}) {
+func writer(conn net.Conn, e *end, data []byte, off int, sd side, wg *sync.WaitGroup, mine chan<- struct{}, others <-chan struct{}, streamFor time.Duration) {
 	defer wg.Done()
 	if sd.shut == 'u' {
 		// stop reading now, so that what the other side sends stays unread
 		atomic.StoreInt32(&e.local, 1)
 		conn.SetReadDeadline(time.Now())
+	}
+	if sd.stream {
+		atomic.StoreInt32(&e.local, 1) // this end is not observed any more
+		// keep writing until the proxy tears the connection down (the other side aborts)
+		chunk := make([]byte, 32<<10)
+		res := int32(2)
+		for end := time.Now().Add(streamFor); time.Now().Before(end); {
+			conn.SetWriteDeadline(time.Now().Add(200 * time.Millisecond))
+			if _, err := conn.Write(chunk); err != nil {
+				if ne, ok := err.(net.Error); ok && ne.Timeout() {
+					continue // blocked: buffers full, nobody reads; keep trying until the bound
+				}
+				res = 1
+				break
+			}
+			atomic.AddInt64(&e.wdone, int64(len(chunk)))
+		}
+		atomic.StoreInt32(&e.sfail, res)
+		atomic.StoreInt32(&e.local, 1)
+		close(mine)
+		conn.Close()
+		return
 	}
 	writeAll(conn, e, data, off, sd)
 	close(mine)
@@ -370,6 +438,43 @@ func rawOf(c net.Conn) net.Conn {
 		return t.NetConn()
 	}
 	return c
+}
+
+// preExchange: one plain proxy exchange on the client connection before the CONNECT.
+func preExchange(c net.Conn, br *bufio.Reader, origin string, n int, wait time.Duration) string {
+	req := fmt.Sprintf("GET http://%s/shaped/%d HTTP/1.1\r\nHost: %s\r\n\r\n", origin, n, origin)
+	c.SetDeadline(time.Now().Add(wait))
+	defer c.SetDeadline(time.Time{})
+	if _, err := c.Write([]byte(req)); err != nil {
+		return "gwriteerr"
+	}
+	lines, err := readHead(br)
+	if err != nil {
+		if ne, ok := err.(net.Error); ok && ne.Timeout() {
+			return "gtimeout"
+		}
+		return "gnohead"
+	}
+	st, _ := statusOf(lines)
+	cl := -1
+	for _, l := range lines[1:] {
+		if i := strings.IndexByte(l, ':'); i > 0 && strings.EqualFold(strings.TrimSpace(l[:i]), "Content-Length") {
+			cl, _ = strconv.Atoi(strings.TrimSpace(l[i+1:]))
+		}
+	}
+	if cl < 0 {
+		return fmt.Sprintf("g%d:nolength", st)
+	}
+	body := make([]byte, cl)
+	if _, err := io.ReadFull(br, body); err != nil {
+		return fmt.Sprintf("g%d:short", st)
+	}
+	want := make([]byte, n)
+	fill(want, 0x5151515)
+	if !bytes.Equal(body, want) {
+		return fmt.Sprintf("g%d:%d!", st, cl)
+	}
+	return fmt.Sprintf("g%d:%d", st, cl)
 }
 
 // bareListener hands out connections that implement net.Conn and nothing else.
@@ -501,6 +606,61 @@ func runDown(arg string, grace time.Duration) []string {
 
 var graceMS = 2000
 
+// trackDial makes the proxies dial through a wrapper that records Close().
+type tracker struct {
+	dialed, closed int32
+	mu             sync.Mutex
+	addrs          map[string]bool // only connections to these addresses belong to the tunnel
+}
+
+func (t *tracker) watch(addr string) {
+	t.mu.Lock()
+	if t.addrs == nil {
+		t.addrs = map[string]bool{}
+	}
+	t.addrs[addr] = true
+	t.mu.Unlock()
+}
+
+type trackedConn struct {
+	*net.TCPConn
+	t    *tracker
+	once sync.Once
+}
+
+func (c *trackedConn) Close() error {
+	c.once.Do(func() { atomic.AddInt32(&c.t.closed, 1) })
+	return c.TCPConn.Close()
+}
+
+func (t *tracker) dial(network, addr string) (net.Conn, error) {
+	c, err := (&net.Dialer{Timeout: 30 * time.Second, KeepAlive: 30 * time.Second}).Dial(network, addr)
+	if err != nil {
+		return nil, err
+	}
+	tc, ok := c.(*net.TCPConn)
+	t.mu.Lock()
+	mine := t.addrs[addr]
+	t.mu.Unlock()
+	if !ok || !mine {
+		return c, nil
+	}
+	atomic.AddInt32(&t.dialed, 1)
+	return &trackedConn{TCPConn: tc, t: t}, nil
+}
+
+func (t *tracker) allClosedWithin(d time.Duration) bool {
+	for end := time.Now().Add(d); ; {
+		if n := atomic.LoadInt32(&t.dialed); n > 0 && atomic.LoadInt32(&t.closed) == n {
+			return true
+		}
+		if time.Now().After(end) {
+			return false
+		}
+		time.Sleep(2 * time.Millisecond)
+	}
+}
+
 func listen() net.Listener {
 	l, err := net.Listen("tcp", "127.0.0.1:0")
 	if err != nil {
@@ -585,11 +745,22 @@ func runTun(tc *tcase, grace, headWait time.Duration) (out []string, timingOnly 
 	defer pl.Close()
 	p := martian.NewProxy()
 	proxies := []*martian.Proxy{p}
+	trk := &tracker{}
+	if tc.tracked {
+		p.SetDial(trk.dial)
+	}
+	trk.watch(tl.Addr().String())
 	switch tc.via {
 	case "M":
 		dl := listen()
 		defer dl.Close()
+		if len(tc.pre) == 0 {
+			trk.watch(dl.Addr().String()) // with pre-exchanges the transport keeps an idle connection to it
+		}
 		dp := martian.NewProxy()
+		if tc.tracked {
+			dp.SetDial(trk.dial)
+		}
 		go dp.Serve(dl)
 		proxies = append(proxies, dp)
 		p.SetDownstreamProxy(&url.URL{Host: dl.Addr().String()})
@@ -602,6 +773,34 @@ func runTun(tc *tcase, grace, headWait time.Duration) (out []string, timingOnly 
 		cl = tls.NewListener(pl, serverTLS())
 	case 'w':
 		cl = bareListener{pl}
+	}
+	// origin for the plain exchanges that precede the CONNECT on the same connection
+	var origin string
+	if len(tc.pre) > 0 || tc.lkind == 't' {
+		ol := listen()
+		defer ol.Close()
+		origin = ol.Addr().String()
+		osrv := &http.Server{Handler: http.HandlerFunc(func(rw http.ResponseWriter, req *http.Request) {
+			n, _ := strconv.Atoi(strings.TrimPrefix(req.URL.Path, "/shaped/"))
+			body := make([]byte, n)
+			fill(body, 0x5151515)
+			rw.Header().Set("Content-Length", strconv.Itoa(n))
+			rw.Header().Set("Content-Type", "application/octet-stream")
+			rw.Write(body)
+		})}
+		go osrv.Serve(ol)
+		defer osrv.Close()
+	}
+	if tc.lkind == 't' {
+		tsl := trafficshape.NewListener(pl)
+		cfgJSON := fmt.Sprintf(`{"trafficshape":{"shapes":[{"url_regex":"http://%s/shaped","close_connections":[{"byte":%d,"count":1000000}]}]}}`, origin, tc.shapeAt)
+		rec := httptest.NewRecorder()
+		req, _ := http.NewRequest("POST", "/shape-traffic", strings.NewReader(cfgJSON))
+		trafficshape.NewHandler(tsl).ServeHTTP(rec, req)
+		if rec.Code != 200 {
+			return []string{"shapeconfig"}, false
+		}
+		cl = tsl
 	}
 	go p.Serve(cl)
 	released := false
@@ -641,6 +840,14 @@ func runTun(tc *tcase, grace, headWait time.Duration) (out []string, timingOnly 
 		rawc.SetDeadline(time.Time{})
 		cconn = tcl
 	}
+	cbr := bufio.NewReaderSize(cconn, 64<<10)
+	for _, n := range tc.pre {
+		tok := preExchange(cconn, cbr, origin, n, headWait)
+		out = append(out, tok)
+		if tok != fmt.Sprintf("g200:%d", n) {
+			return out, strings.HasSuffix(tok, "timeout")
+		}
+	}
 	thost := tl.Addr().String()
 	head := "CONNECT " + thost + " HTTP/1.1\r\nHost: " + thost + "\r\n\r\n"
 	first := append([]byte(head), cdata[:tc.early]...)
@@ -679,12 +886,11 @@ func runTun(tc *tcase, grace, headWait time.Duration) (out []string, timingOnly 
 		}
 	}
 
-	cbr := bufio.NewReaderSize(cconn, 64<<10)
 	cconn.SetReadDeadline(time.Now().Add(headWait))
 	lines, err := readHead(cbr)
 	cconn.SetReadDeadline(time.Time{})
 	if err != nil {
-		return []string{"noresponse"}, true
+		return append(out, "noresponse"), true
 	}
 	st, _ := statusOf(lines)
 	out = append(out, fmt.Sprintf("s%d", st))
@@ -705,17 +911,17 @@ func runTun(tc *tcase, grace, headWait time.Duration) (out []string, timingOnly 
 		var wwg sync.WaitGroup
 		wwg.Add(2)
 		cw, tw := make(chan struct{}), make(chan struct{})
-		go writer(cconn, &ce, cdata, coff, ph.c, &wwg, cw, tw)
-		go writer(tconn, &te, tdata, toff, ph.t, &wwg, tw, cw)
+		go writer(cconn, &ce, cdata, coff, ph.c, &wwg, cw, tw, grace)
+		go writer(tconn, &te, tdata, toff, ph.t, &wwg, tw, cw, grace)
 		wdone := make(chan struct{})
 		go func() { wwg.Wait(); close(wdone) }()
 		coff += ph.c.total()
 		toff += ph.t.total()
-		cshut = cshut || ph.c.shut != 0
-		tshut = tshut || ph.t.shut != 0
-		cfull = cfull || strings.IndexByte("fau", ph.c.shut) >= 0 && ph.c.shut != 0
-		tfull = tfull || strings.IndexByte("fau", ph.t.shut) >= 0 && ph.t.shut != 0
-		if tc.lkind == 'w' && tshut {
+		cshut = cshut || ph.c.shut != 0 || ph.c.stream
+		tshut = tshut || ph.t.shut != 0 || ph.t.stream
+		cfull = cfull || strings.IndexByte("fau", ph.c.shut) >= 0 && ph.c.shut != 0 || ph.c.stream
+		tfull = tfull || strings.IndexByte("fau", ph.t.shut) >= 0 && ph.t.shut != 0 || ph.t.stream
+		if (tc.lkind == 'w' || tc.lkind == 't') && tshut {
 			cshut = true // the proxy can only close the client connection: both directions end
 		}
 
@@ -761,6 +967,19 @@ func runTun(tc *tcase, grace, headWait time.Duration) (out []string, timingOnly 
 		if !wd {
 			out = append(out, "BLOCKED")
 			return out, timingOnly
+		}
+		for _, pr := range []struct {
+			sd side
+			e  *end
+		}{{ph.c, &ce}, {ph.t, &te}} {
+			if pr.sd.stream {
+				if atomic.LoadInt32(&pr.e.sfail) == 1 {
+					out = append(out, "S1")
+				} else {
+					out = append(out, "S0")
+					timingOnly = true
+				}
+			}
 		}
 	}
 	if tc.probe != 0 {
@@ -821,6 +1040,16 @@ func runTun(tc *tcase, grace, headWait time.Duration) (out []string, timingOnly 
 	} else {
 		out = append(out, "R-")
 	}
+	if tc.tracked && (cshut && tshut || tc.probe != 0) {
+		if trk.allClosedWithin(grace) {
+			out = append(out, "K1")
+		} else {
+			out = append(out, "K0")
+			timingOnly = true
+		}
+	} else {
+		out = append(out, "K-")
+	}
 	atomic.StoreInt32(&ce.local, 1)
 	atomic.StoreInt32(&te.local, 1)
 	cconn.Close()
@@ -832,17 +1061,21 @@ func runTun(tc *tcase, grace, headWait time.Duration) (out []string, timingOnly 
 // ideal is what a perfect tunnel shows; used ONLY to decide whether a case
 // that timed out somewhere deserves one retry (the verdict is the driver's).
 func ideal(tc *tcase) []string {
-	out := []string{fmt.Sprintf("s%d", tc.fcode)}
+	var out []string
+	for _, n := range tc.pre {
+		out = append(out, fmt.Sprintf("g200:%d", n))
+	}
+	out = append(out, fmt.Sprintf("s%d", tc.fcode))
 	cn, tn := tc.early, tc.banner
 	cshut, tshut, cfull, tfull := false, false, false, false
 	for _, ph := range tc.phases {
 		cn += ph.c.total()
 		tn += ph.t.total()
-		cshut = cshut || ph.c.shut != 0
-		tshut = tshut || ph.t.shut != 0
-		cfull = cfull || strings.IndexByte("fau", ph.c.shut) >= 0 && ph.c.shut != 0
-		tfull = tfull || strings.IndexByte("fau", ph.t.shut) >= 0 && ph.t.shut != 0
-		if tc.lkind == 'w' && tshut {
+		cshut = cshut || ph.c.shut != 0 || ph.c.stream
+		tshut = tshut || ph.t.shut != 0 || ph.t.stream
+		cfull = cfull || strings.IndexByte("fau", ph.c.shut) >= 0 && ph.c.shut != 0 || ph.c.stream
+		tfull = tfull || strings.IndexByte("fau", ph.t.shut) >= 0 && ph.t.shut != 0 || ph.t.stream
+		if (tc.lkind == 'w' || tc.lkind == 't') && tshut {
 			cshut = true
 		}
 		ef := func(b bool) int32 {
@@ -855,6 +1088,12 @@ func ideal(tc *tcase) []string {
 		ts := snap{n: int64(cn), eof: ef(cshut), local: b2(tfull)}
 		cs := snap{n: int64(tn), eof: ef(tshut), local: b2(cfull)}
 		out = append(out, ts.tok("t")+"/"+cs.tok("c"))
+		if ph.c.stream {
+			out = append(out, "S1")
+		}
+		if ph.t.stream {
+			out = append(out, "S1")
+		}
 	}
 	if tc.probe != 0 {
 		out = append(out, "W1", "Q0")
@@ -863,6 +1102,11 @@ func ideal(tc *tcase) []string {
 		out = append(out, "R1")
 	} else {
 		out = append(out, "R-")
+	}
+	if tc.tracked && (cshut && tshut || tc.probe != 0) {
+		out = append(out, "K1")
+	} else {
+		out = append(out, "K-")
 	}
 	return out
 }
